@@ -24,6 +24,154 @@ func calleeName(p *packages.Package, c *ast.CallExpr) string {
 	return exprString(p.Fset, c.Fun)
 }
 
+// effectful: functions of package p that (transitively through calls within the package) write to
+// something that outlives them — receiver, parameters, package variables, objects reached through pointers or
+// maps that were not freshly made in the function — or send output. Callees that only compute are not part of a
+// range body's shape.
+var effectCache = map[*packages.Package]map[*types.Func]bool{}
+
+func freshExpr(e ast.Expr) bool {
+	switch v := e.(type) {
+	case *ast.CompositeLit:
+		return true
+	case *ast.UnaryExpr:
+		_, ok := v.X.(*ast.CompositeLit)
+		return ok && v.Op == token.AND
+	case *ast.CallExpr:
+		if id, ok := v.Fun.(*ast.Ident); ok && (id.Name == "make" || id.Name == "new") {
+			return true
+		}
+	}
+	return false
+}
+
+func rootIdent(e ast.Expr) *ast.Ident {
+	for {
+		switch v := e.(type) {
+		case *ast.Ident:
+			return v
+		case *ast.SelectorExpr:
+			e = v.X
+		case *ast.IndexExpr:
+			e = v.X
+		case *ast.StarExpr:
+			e = v.X
+		case *ast.ParenExpr:
+			e = v.X
+		default:
+			return nil
+		}
+	}
+}
+
+func directEffects(p *packages.Package, fd *ast.FuncDecl) (direct bool, callees []*types.Func) {
+	defs := singleDefs(p, fd.Body)
+	outlives := func(lhs ast.Expr) bool {
+		if _, plain := lhs.(*ast.Ident); plain {
+			obj := p.TypesInfo.ObjectOf(lhs.(*ast.Ident))
+			// a plain local (or result) variable; package variables outlive the call
+			return obj != nil && obj.Parent() != nil && obj.Pkg() != nil && obj.Parent() == obj.Pkg().Scope()
+		}
+		id := rootIdent(lhs)
+		if id == nil {
+			return true
+		}
+		obj := p.TypesInfo.ObjectOf(id)
+		if obj == nil {
+			return true
+		}
+		if obj.Pos() < fd.Body.Pos() || obj.Pos() > fd.Body.End() {
+			return true // receiver, parameter, package variable
+		}
+		if d, ok := defs[obj]; ok && freshExpr(d) {
+			return false
+		}
+		switch obj.Type().Underlying().(type) {
+		case *types.Pointer, *types.Map, *types.Slice, *types.Interface:
+			return true
+		}
+		return false
+	}
+	ast.Inspect(fd.Body, func(n ast.Node) bool {
+		switch v := n.(type) {
+		case *ast.AssignStmt:
+			for _, l := range v.Lhs {
+				if outlives(l) {
+					direct = true
+				}
+			}
+		case *ast.IncDecStmt:
+			if outlives(v.X) {
+				direct = true
+			}
+		case *ast.GoStmt, *ast.SendStmt:
+			direct = true
+		case *ast.CallExpr:
+			name := calleeName(p, v)
+			if name == "delete" && len(v.Args) > 0 && outlives(&ast.IndexExpr{X: v.Args[0]}) {
+				direct = true
+			}
+			var id *ast.Ident
+			switch f := v.Fun.(type) {
+			case *ast.Ident:
+				id = f
+			case *ast.SelectorExpr:
+				id = f.Sel
+			}
+			if id != nil {
+				if fn, ok := p.TypesInfo.Uses[id].(*types.Func); ok && fn.Pkg() != nil && fn.Pkg().Path() == p.PkgPath {
+					callees = append(callees, fn)
+				}
+				if strings.HasPrefix(strings.ToLower(id.Name), "send") {
+					direct = true
+				}
+			}
+		}
+		return true
+	})
+	return
+}
+
+func effectful(p *packages.Package) map[*types.Func]bool {
+	if m, ok := effectCache[p]; ok {
+		return m
+	}
+	eff := map[*types.Func]bool{}
+	calls := map[*types.Func][]*types.Func{}
+	for _, f := range p.Syntax {
+		for _, d := range f.Decls {
+			fd, ok := d.(*ast.FuncDecl)
+			if !ok || fd.Body == nil {
+				continue
+			}
+			fn, _ := p.TypesInfo.Defs[fd.Name].(*types.Func)
+			if fn == nil {
+				continue
+			}
+			d, cs := directEffects(p, fd)
+			eff[fn] = d
+			calls[fn] = cs
+		}
+	}
+	for changed := true; changed; {
+		changed = false
+		for fn, cs := range calls {
+			if eff[fn] {
+				continue
+			}
+			for _, c := range cs {
+				if eff[c] {
+					eff[fn] = true
+					changed = true
+					break
+				}
+			}
+		}
+	}
+	effectCache[p] = eff
+	return eff
+}
+
 // classify the body of a map range
 func classifyRange(p *packages.Package, fd *ast.FuncDecl, rs *ast.RangeStmt) string {
 	emits, exits, appends, mapWrites, deletes, calls := false, false, []string{}, false, false, []string{}
@@ -40,7 +188,8 @@ func classifyRange(p *packages.Package, fd *ast.FuncDecl, rs *ast.RangeStmt) str
 		if obj == nil || (obj.Pos() >= rs.Pos() && obj.Pos() <= rs.End()) {
 			return "", false
 		}
-		return id.Name, true
+		// by type, not by name: renaming the variable does not change the shape
+		return shortType(obj.Type()), true
 	}
 	ast.Inspect(rs.Body, func(n ast.Node) bool {
 		switch v := n.(type) {
@@ -91,7 +240,19 @@ func classifyRange(p *packages.Package, fd *ast.FuncDecl, rs *ast.RangeStmt) str
 			case strings.Contains(name, ".send") || strings.HasPrefix(name, "i.cmd") || strings.Contains(name, "Sprintf"):
 				emits = emits || strings.Contains(name, ".send") || strings.HasPrefix(name, "i.cmd")
 			default:
-				calls = append(calls, name)
+				// only callees of this package that have effects of their own belong to the shape
+				var id *ast.Ident
+				switch f := v.Fun.(type) {
+				case *ast.Ident:
+					id = f
+				case *ast.SelectorExpr:
+					id = f.Sel
+				}
+				if id != nil {
+					if fn, ok := p.TypesInfo.Uses[id].(*types.Func); ok && fn.Pkg() != nil && fn.Pkg().Path() == p.PkgPath && effectful(p)[fn] {
+						calls = append(calls, fn.Name())
+					}
+				}
 			}
 		}
 		return true
@@ -189,7 +350,17 @@ func (x *extractor) genRanges() {
 						t := p.TypesInfo.TypeOf(v.X)
 						if t != nil {
 							if _, isMap := t.Underlying().(*types.Map); isMap {
-								sites = append(sites, rangeSite{funcID(p, fd), exprString(p.Fset, v.X), classifyRange(p, fd, v)})
+								// what is ranged over, independent of names and of the function it sits in: the field of a
+								// type, else the normal form of the expression
+								ranged := newEnv(p, fd).expr(v.X)
+								if se, ok := v.X.(*ast.SelectorExpr); ok {
+									if xt := p.TypesInfo.TypeOf(se.X); xt != nil {
+										ranged = strings.TrimPrefix(shortType(xt), "*") + "." + se.Sel.Name
+									}
+								} else if len(ranged) > 80 {
+									ranged = "local:" + shortType(t)
+								}
+								sites = append(sites, rangeSite{funcID(p, fd), ranged, classifyRange(p, fd, v)})
 							}
 						}
 					case *ast.CallExpr:
@@ -208,7 +379,7 @@ func (x *extractor) genRanges() {
 		}
 	}
 	sort.Slice(sites, func(i, j int) bool {
-		return sites[i].Fn+"|"+sites[i].Ranged+"|"+sites[i].Shape < sites[j].Fn+"|"+sites[j].Ranged+"|"+sites[j].Shape
+		return sites[i].Ranged+"|"+sites[i].Shape+"|"+sites[i].Fn < sites[j].Ranged+"|"+sites[j].Shape+"|"+sites[j].Fn
 	})
 	sort.Slice(impures, func(i, j int) bool { return impures[i].Fn+impures[i].Call < impures[j].Fn+impures[j].Call })
 	var b strings.Builder
